@@ -200,6 +200,10 @@ class kLeastAbsErrors(pathmodel.AbstractPathModelDAG):
 
         self.k = k
         self.original_k = k
+        if self.k is not None and self.k <= 0:
+            # (checked here because a given solution_weights_superset overwrites k below)
+            utils.logger.error(f"{__name__}: k must be positive, got {self.k}.")
+            raise ValueError(f"k must be positive, got {self.k}.")
         self.solution_weights_superset = solution_weights_superset
         self.optimization_options = dict(optimization_options) if optimization_options else {}  # a copy: the caller's dict must not be modified
 
